@@ -31,6 +31,8 @@ CHECKS = {
     "C17": ("records", REC_TXT % ("PCConfig (environment)", "loader and the launch path of the runner (scripted commanders record SetEnv/SetDir)", "C17_* (expansion of $VAR / ${VAR} / $$ from token sequences, injected variables, precedence per-process > global > inherited, working directory)"), REC_NOTE),
     "C13": ("records", REC_TXT % ("PCScale", "ScaleProcess on a live runner with scripted commanders (projection of the four maps, per-replica config/state/log and ground-truth commands before and after)", "C13_* (exactly n canonical replicas, four maps agree, same as a fresh load, rendered for its own replica number, survivors undisturbed, removed terminated, added launched, invalid requests rejected without effect)"), REC_NOTE),
     "C14": ("records", REC_TXT % ("PCScale / PCConfig", "UpdateProject on a live runner (sequences of up to 3 updates) and ProcessConfig.Compare on pairs differing in known fields", "C14_* (set equals new, unchanged keep their instance, changed are terminated before the new instance is launched with the new argv/env/dir, removed gone, added launched, status map exact, change detection of every launch-relevant field)"), REC_NOTE),
+    "C11": ("records", "Real commands (bash) run through the real output pipeline (pipes -> reader goroutines -> log buffer / logger -> file); every written line carries a unique id; TLC evaluates C11_AllLinesOnceInOrder / C11_FileComplete (PCOutput) on every run record; the design model of the pipe / reader / Wait protocol is explored exhaustively (and shows the loss when a reader is not waited for).", REC_NOTE + " Real processes: the OS schedules them, instants are sampled not enumerated."),
+    "C19": ("records", REC_TXT % ("PCApi (a refinement statement: each route is the corresponding runner operation)", "gin router (api.InitRoutes) over a recording decorator around the real runner, raw HTTP requests and the bundled client", "C19_* (never 5xx, still serving, same operation, invalid is 4xx, error is 4xx with the runner's message, same result, client decodes the same value / error)"), REC_NOTE),
     "C18": ("records", "Operation histories of the real pclog.ProcessLogBuffer (exhaustive (offset, limit) grids on small logs and around the trim boundary; a writer concurrent with subscribers; stalled follower) validated by TLC against PCLogBuffer / PCLogBufferTrace (C18_Recent, C18_RangeWindow, C18_FollowerNoGapNoDup, C18_StalledFollowerDoesNotBlock); the design model is explored exhaustively for small constants.", REC_NOTE),
 }
 try:
